@@ -113,6 +113,7 @@ def run(eng, tier):
                     amt = ADD(total, F(SOMEV(M(v, 'fee')), 'amount')) if p.variant_of(M(v, 'fee')) == 'Some' else total
                     funds_rule(eng, p, v, M(v, 'quote'), amt, dom, 0, PROP)
             conservation(eng, p)
+            check_exact_conversions(eng, PROP, p)
             remove_iff_zero(eng, PROP, p)
             check_I2(eng, PROP, p); check_I4(eng, PROP, p); check_I7(eng, PROP, p)
     # ModifyContract moves no funds
